@@ -124,7 +124,7 @@ func (g *gen) node(prefix string, depth int, passOnly bool, out *[]leaf) string 
 				k := t.Draw(3)
 				key, label = fmt.Sprint(k), fmt.Sprint(k)
 			} else {
-				k := []string{"k", "j", "m"}[t.Draw(3)]
+				k := []string{"k", "j", "m", "naïve café", "ключ", "k"}[t.Draw(6)] // leaf paths are padded to a common width: bytes and runes differ
 				key, label = fmt.Sprintf("%q", k), "'"+k+"'"
 			}
 			if seen[key] {
